@@ -1,12 +1,16 @@
-"""Driver registry: name -> (sources, kind, extra flags). build_all() is used by `vcheck setup`."""
+"""Driver registry. Each check module may define DRIVERS = {name: (sources, kind, extra_flags)}; sources are relative
+to /verif/harness; kind is s4u | smpi | c-smpi | plain (see vlib.build_driver). `vcheck setup` builds them all."""
+import glob, importlib, os
 import vlib
 
 DRIVERS = {
     "kdrv": (["kdrv.cpp"], "s4u", []),
 }
-
-
 _built = {}
+
+
+def register(table):
+    DRIVERS.update(table)
 
 
 def get(name):
@@ -18,6 +22,17 @@ def get(name):
 
 
 def build_all():
-    for n in DRIVERS:
+    for f in sorted(glob.glob(os.path.join(vlib.VERIF, "checks", "*.py"))):
+        mod = os.path.basename(f)[:-3]
+        if mod in ("drivers",):
+            continue
+        try:
+            m = importlib.import_module(mod)
+        except Exception as e:  # a broken module must not break setup of the others
+            print("setup: cannot import %s: %s" % (mod, e))
+            continue
+        if hasattr(m, "DRIVERS"):
+            register(m.DRIVERS)
+    for n in sorted(DRIVERS):
         get(n)
         print("driver", n, "ok")
